@@ -1,8 +1,9 @@
 (** C08 -- a REFUSED edit leaves a consistent grid: [after g o] (the state in which [step g o] raises) is consistent
     whenever [g] is.  Most methods refuse before their first assignment ([after g o = g]); the three loops that
     can stop half way (demote_block over several names, the connection loop of reorder, minc) stop between two
-    self-contained steps.  The exception: delete_connection / delete_block of a block that is connected with
-    ITSELF raise KeyError half way and leave the records wrong (Witness.v); without such a connection they never raise. *)
+    self-contained steps.  delete_connection and delete_block never raise on a consistent grid (since repair 3ad8118
+    the connection's name is removed once per DISTINCT end; before it, a connection of a block with itself made them
+    raise KeyError half way and leave the records wrong). *)
 From Coq Require Import Ascii String List Bool PArith NArith FMapPositive Permutation Lia.
 From PTBase Require Import Exn PyStr.
 From P Require Import Assoc GridEdit GridLemmas Inv InvRock InvBlock InvConn InvReorder InvMinc.
@@ -77,49 +78,41 @@ Section MincPartialInv.
   Proof. intro I. unfold minc_partial. destruct levels; [exact I|]. apply minc_blocks_partial_inv. exact I. Qed.
 End MincPartialInv.
 
-(** ** delete_connection and delete_block never raise on a consistent grid without a connection of a block with itself *)
-Definition no_self_connection (g : grid) : Prop := forall j, In j (clist g) -> c0 g j <> c1 g j.
-
-Lemma delete_connection_total g k : Inv g -> (forall j, cget g k = Some j -> c0 g j <> c1 g j) ->
-  exists g', delete_connection g k = Ok g'.
+(** ** delete_connection and delete_block never raise on a consistent grid *)
+Lemma delete_connection_total g k : Inv g -> exists g', delete_connection g k = Ok g'.
 Proof.
-  intros I N. unfold delete_connection. destruct (cget g k) as [j|] eqn:E; [|eauto].
+  intros I. unfold delete_connection. destruct (cget g k) as [j|] eqn:E; [|eauto].
   destruct (inv_cget g k j I E) as [Hj Hk]. destruct (i_ends g I j Hj) as [B0 B1].
   assert (K0 : In k (cn g (c0 g j))) by (apply (i_back g I _ B0); exists j; auto).
   assert (K1 : In k (cn g (c1 g j))) by (apply (i_back g I _ B1); exists j; auto).
   unfold cn_remove at 1. rewrite (proj2 (set_mem_In k _) K0). cbn [bind].
-  unfold cn_remove. gs. rewrite fget_fset_neq by (intro X; apply (N j eq_refl); symmetry; exact X).
-  fold (cn g (c1 g j)). rewrite (proj2 (set_mem_In k _) K1). cbn [bind]. gs.
-  rewrite (proj2 (mem_In j _) Hj). eauto.
+  destruct (Pos.eqb_spec (c1 g j) (c0 g j)) as [Eq|Ne]; cbn [bind].
+  - gs. rewrite (proj2 (mem_In j _) Hj). eauto.
+  - unfold cn_remove. gs. rewrite fget_fset_neq by exact Ne.
+    fold (cn g (c1 g j)). rewrite (proj2 (set_mem_In k _) K1). cbn [bind]. gs.
+    rewrite (proj2 (mem_In j _) Hj). eauto.
 Qed.
 
-Lemma delete_connections_total ks : forall g, Inv g -> no_self_connection g -> exists g', delete_connections g ks = Ok g'.
+Lemma delete_connections_total ks : forall g, Inv g -> exists g', delete_connections g ks = Ok g'.
 Proof.
-  induction ks as [|k r IH]; cbn [delete_connections]; intros g I N; [eauto|].
+  induction ks as [|k r IH]; cbn [delete_connections]; intros g I; [eauto|].
   destruct (delete_connection_total g k I) as [g1 E].
-  { intros j Hj. apply N. exact (proj1 (inv_cget g k j I Hj)). }
-  rewrite E. cbn [bind]. destruct (delete_connection_spec g k g1 I E) as [I1 [F _]].
-  apply IH; [exact I1|]. intros j Hj. destruct (frame_dc_acc g g1 F) as [_ [_ [E0 [E1 _]]]]. rewrite E0, E1.
-  apply N. apply (f_clist _ _ F). exact Hj.
+  rewrite E. cbn [bind]. apply IH. exact (proj1 (delete_connection_spec g k g1 I E)).
+Qed.
+Lemma delete_block_total g n : Inv g -> exists g', delete_block g n = Ok g'.
+Proof.
+  intro I. unfold delete_block. destruct (bget g n) as [i|]; [|eauto].
+  destruct (delete_connections_total (cn g i) g I) as [g1 E]. rewrite E. cbn [bind]. eauto.
 Qed.
 
-(** what the statement asks of the arguments of a call that is going to be refused: a reorder names every block once;
-    the grid has no connection of a block with itself when a connection or a block is deleted *)
+(** what the statement asks of the arguments of a call that is going to be refused: a reorder names every block once *)
 Definition pre_after (g : grid) (o : op) : Prop :=
-  match o with
-  | Reorder bns _ => reorder_blocks_ok g bns
-  | DelConn a b => forall j, cget g (a, b) = Some j -> c0 g j <> c1 g j
-  | DelBlock _ => no_self_connection g
-  | _ => True
-  end.
+  match o with Reorder bns _ => reorder_blocks_ok g bns | _ => True end.
 
 Theorem after_inv g o e : Inv g -> pre_after g o -> step g o = Raise e -> Inv (after g o).
 Proof.
   intros I P H. destruct o; cbn [after pre_after step] in *; try exact I.
-  - (* delete_block *) exfalso. unfold delete_block in H. destruct (bget g n) as [i|]; [|discriminate].
-    destruct (delete_connections_total (cn g i) g I P) as [g1 E]. rewrite E in H. discriminate.
   - apply demote_partial_inv. exact I.
-  - (* delete_connection *) exfalso. destruct (delete_connection_total g (a, b) I P) as [g1 E]. rewrite E in H. discriminate.
   - apply reorder_partial_inv; assumption.
   - apply minc_partial_inv. exact I.
   - apply inv_new_conn. exact I.
